@@ -49,13 +49,14 @@ def handle : List String → String
           let p : Params Unit := ⟨shape, isz, off, o, (), ()⟩
           showRes (getUnscaled (thresholdHeuristic thr) p idx)
       | _, _, _, _, _, _ => "bad-op"
-  -- reshaped proxy: proxy.reshape(newshape)[idx]
+  -- reshaped proxy: proxy.reshape(newshape)[idx]; second order token = order of the NEW proxy (equal to the
+  -- first for the repaired code; different = the pinned `reshapeOrig`)
   | ["rs", ord, dflt, thr, isz, off, shape, newshape, idx] =>
       match parseOrder? ord, parseOrder? dflt, thr.toNat?, isz.toNat?, off.toNat?, parseNatList? shape,
             parseIntList? newshape, parseIdx? idx with
       | some o, some dflt, some thr, some isz, some off, some shape, some ns, some idx =>
           let p : Params Unit := ⟨shape, isz, off, o, (), ()⟩
-          match reshape dflt p ns with
+          match (if dflt = o then reshape p ns else reshapeOrig dflt p ns) with
           | .ok p' => showRes (getUnscaled (thresholdHeuristic thr) p' idx)
           | .error _ => "ERR"
       | _, _, _, _, _, _, _, _ => "bad-op"
